@@ -118,6 +118,7 @@ type Node struct {
 	// observations
 	Commits map[uint64]*CommitRec
 	Panics  int
+	Wedged  bool // the monitors found the node's storage locked for good: it is taken out of the schedule
 }
 
 type pendingSync struct {
@@ -156,6 +157,7 @@ type World struct {
 	Canon            map[uint64]*CommitRec // first commit seen per height (for sync / prev proofs)
 	KeepTrace        bool
 	ReverseToLaggers bool
+	Aborted          bool // a monitor found a node disabled for good: the case ends here (the violation is recorded)
 	SplitHandoff     bool // main-loop and worker halves of syncs / elections may be separated by other steps
 }
 
@@ -300,6 +302,9 @@ func (w *World) SyncNode(n *Node, b *spi.Blk, proof []byte) {
 
 // WorkerTakeSync is the worker half of a node sync: the worker's select picked the update-state inbox.
 func (w *World) WorkerTakeSync(n *Node) {
+	if n.Wedged {
+		return
+	}
 	ps := n.handSync
 	if ps != nil {
 		n.handSync = nil
@@ -330,7 +335,7 @@ func (w *World) WorkerTakeSync(n *Node) {
 // WorkerTakeTrigger is the worker half of an election: the worker's select picked the election inbox.
 func (w *World) WorkerTakeTrigger(n *Node) {
 	trig := n.pendTrig
-	if trig == nil {
+	if trig == nil || n.Wedged {
 		return
 	}
 	n.pendTrig = nil
@@ -388,7 +393,7 @@ func (w *World) Timeout(n *Node) bool {
 // Deliver hands one flight to its destination node and lets the monitors judge it.
 func (w *World) Deliver(f *Flight) {
 	n, ok := w.Nodes[f.To]
-	if !ok {
+	if !ok || n.Wedged {
 		return // destination is Byzantine / outsider: adversary knowledge only
 	}
 	n.gc()
